@@ -42,6 +42,7 @@ func runC08(p *Prog, r *Report) {
 	underlyingEnumRefusalRule(p, r, "C08.R12")
 	anyPatternRule(p, r, "C08.R14")
 	enumKindMaskRule(p, r, "C08.R15")
+	transformersMergedRule(p, r, "C08.R16")
 	relativePackageRule(p, r, "C08.R13")
 	matchesCompleteRule(p, r, "C08.R11", "two detected enums are always converted by the name-driven switch, never by the plain basic conversion", "builder.(*Enum).Matches")
 }
